@@ -759,6 +759,10 @@ class Message:
                 raise error.MalformedUrlError(
                     "Percent encoded strings in CoAP URI hosts need to be UTF-8 encoded"
                 ) from e
+        elif set_uri_host:
+            # like path and query above: a host name left over from an earlier
+            # URI must not survive re-targeting to an IP literal
+            self.opt.uri_host = None
 
     # Deprecated accessors to moved functionality
 
